@@ -4,4 +4,4 @@ From Coq Require Import List ZArith QArith Qcanon.
 From Inovesa Require Import Model.Driver Gen.Gen_MainLoop Model.DriverInst.
 
 Extraction Language OCaml.
-Extraction "model_driver.ml" Q2Qc this model_run mkcfg.
+Extraction "model_driver.ml" Q2Qc this model_run model_run_full mkcfg.
